@@ -45,6 +45,7 @@ type ProxyStore struct {
 	// the request (the contract documented in handler/rfc8628/storage.go).
 	ContractDevice bool
 	invalidDevice  map[string]fosite.DeviceRequester
+	tx             *TxStore
 }
 
 func NewProxyStore(m *storage.MemoryStore) *ProxyStore {
@@ -117,7 +118,11 @@ func (p *ProxyStore) ClientAssertionJWTValid(ctx context.Context, jti string) er
 func (p *ProxyStore) SetClientAssertionJWT(ctx context.Context, jti string, exp time.Time) error {
 	c, err := p.pre("SetClientAssertionJWT", true, nil, jti)
 	if err == nil {
-		err = p.M.SetClientAssertionJWT(ctx, jti, exp)
+		op := func() error { return p.M.SetClientAssertionJWT(ctx, jti, exp) }
+		err = op()
+		if err == nil {
+			p.outsideTx(ctx, op)
+		}
 	}
 	p.post(c, err)
 	return err
@@ -128,7 +133,11 @@ func (p *ProxyStore) SetClientAssertionJWT(ctx context.Context, jti string, exp 
 func (p *ProxyStore) CreateAuthorizeCodeSession(ctx context.Context, code string, req fosite.Requester) error {
 	c, err := p.pre("CreateAuthorizeCodeSession", true, req, code)
 	if err == nil {
-		err = p.M.CreateAuthorizeCodeSession(ctx, code, req)
+		op := func() error { return p.M.CreateAuthorizeCodeSession(ctx, code, req) }
+		err = op()
+		if err == nil {
+			p.outsideTx(ctx, op)
+		}
 	}
 	p.post(c, err)
 	return err
@@ -145,7 +154,11 @@ func (p *ProxyStore) GetAuthorizeCodeSession(ctx context.Context, code string, s
 func (p *ProxyStore) InvalidateAuthorizeCodeSession(ctx context.Context, code string) error {
 	c, err := p.pre("InvalidateAuthorizeCodeSession", true, nil, code)
 	if err == nil {
-		err = p.M.InvalidateAuthorizeCodeSession(ctx, code)
+		op := func() error { return p.M.InvalidateAuthorizeCodeSession(ctx, code) }
+		err = op()
+		if err == nil {
+			p.outsideTx(ctx, op)
+		}
 	}
 	p.post(c, err)
 	return err
@@ -156,7 +169,11 @@ func (p *ProxyStore) InvalidateAuthorizeCodeSession(ctx context.Context, code st
 func (p *ProxyStore) CreatePKCERequestSession(ctx context.Context, code string, req fosite.Requester) error {
 	c, err := p.pre("CreatePKCERequestSession", true, req, code)
 	if err == nil {
-		err = p.M.CreatePKCERequestSession(ctx, code, req)
+		op := func() error { return p.M.CreatePKCERequestSession(ctx, code, req) }
+		err = op()
+		if err == nil {
+			p.outsideTx(ctx, op)
+		}
 	}
 	p.post(c, err)
 	return err
@@ -173,7 +190,11 @@ func (p *ProxyStore) GetPKCERequestSession(ctx context.Context, code string, s f
 func (p *ProxyStore) DeletePKCERequestSession(ctx context.Context, code string) error {
 	c, err := p.pre("DeletePKCERequestSession", true, nil, code)
 	if err == nil {
-		err = p.M.DeletePKCERequestSession(ctx, code)
+		op := func() error { return p.M.DeletePKCERequestSession(ctx, code) }
+		err = op()
+		if err == nil {
+			p.outsideTx(ctx, op)
+		}
 	}
 	p.post(c, err)
 	return err
@@ -184,7 +205,11 @@ func (p *ProxyStore) DeletePKCERequestSession(ctx context.Context, code string) 
 func (p *ProxyStore) CreateOpenIDConnectSession(ctx context.Context, code string, req fosite.Requester) error {
 	c, err := p.pre("CreateOpenIDConnectSession", true, req, code)
 	if err == nil {
-		err = p.M.CreateOpenIDConnectSession(ctx, code, req)
+		op := func() error { return p.M.CreateOpenIDConnectSession(ctx, code, req) }
+		err = op()
+		if err == nil {
+			p.outsideTx(ctx, op)
+		}
 	}
 	p.post(c, err)
 	return err
@@ -201,7 +226,11 @@ func (p *ProxyStore) GetOpenIDConnectSession(ctx context.Context, code string, r
 func (p *ProxyStore) DeleteOpenIDConnectSession(ctx context.Context, code string) error {
 	c, err := p.pre("DeleteOpenIDConnectSession", true, nil, code)
 	if err == nil {
-		err = p.M.DeleteOpenIDConnectSession(ctx, code)
+		op := func() error { return p.M.DeleteOpenIDConnectSession(ctx, code) }
+		err = op()
+		if err == nil {
+			p.outsideTx(ctx, op)
+		}
 	}
 	p.post(c, err)
 	return err
@@ -212,7 +241,11 @@ func (p *ProxyStore) DeleteOpenIDConnectSession(ctx context.Context, code string
 func (p *ProxyStore) CreateAccessTokenSession(ctx context.Context, sig string, req fosite.Requester) error {
 	c, err := p.pre("CreateAccessTokenSession", true, req, sig)
 	if err == nil {
-		err = p.M.CreateAccessTokenSession(ctx, sig, req)
+		op := func() error { return p.M.CreateAccessTokenSession(ctx, sig, req) }
+		err = op()
+		if err == nil {
+			p.outsideTx(ctx, op)
+		}
 	}
 	p.post(c, err)
 	return err
@@ -229,7 +262,11 @@ func (p *ProxyStore) GetAccessTokenSession(ctx context.Context, sig string, s fo
 func (p *ProxyStore) DeleteAccessTokenSession(ctx context.Context, sig string) error {
 	c, err := p.pre("DeleteAccessTokenSession", true, nil, sig)
 	if err == nil {
-		err = p.M.DeleteAccessTokenSession(ctx, sig)
+		op := func() error { return p.M.DeleteAccessTokenSession(ctx, sig) }
+		err = op()
+		if err == nil {
+			p.outsideTx(ctx, op)
+		}
 	}
 	p.post(c, err)
 	return err
@@ -240,7 +277,11 @@ func (p *ProxyStore) DeleteAccessTokenSession(ctx context.Context, sig string) e
 func (p *ProxyStore) CreateRefreshTokenSession(ctx context.Context, sig, atSig string, req fosite.Requester) error {
 	c, err := p.pre("CreateRefreshTokenSession", true, req, sig, atSig)
 	if err == nil {
-		err = p.M.CreateRefreshTokenSession(ctx, sig, atSig, req)
+		op := func() error { return p.M.CreateRefreshTokenSession(ctx, sig, atSig, req) }
+		err = op()
+		if err == nil {
+			p.outsideTx(ctx, op)
+		}
 	}
 	p.post(c, err)
 	return err
@@ -257,7 +298,11 @@ func (p *ProxyStore) GetRefreshTokenSession(ctx context.Context, sig string, s f
 func (p *ProxyStore) DeleteRefreshTokenSession(ctx context.Context, sig string) error {
 	c, err := p.pre("DeleteRefreshTokenSession", true, nil, sig)
 	if err == nil {
-		err = p.M.DeleteRefreshTokenSession(ctx, sig)
+		op := func() error { return p.M.DeleteRefreshTokenSession(ctx, sig) }
+		err = op()
+		if err == nil {
+			p.outsideTx(ctx, op)
+		}
 	}
 	p.post(c, err)
 	return err
@@ -265,7 +310,11 @@ func (p *ProxyStore) DeleteRefreshTokenSession(ctx context.Context, sig string) 
 func (p *ProxyStore) RotateRefreshToken(ctx context.Context, requestID string, sig string) error {
 	c, err := p.pre("RotateRefreshToken", true, nil, requestID, sig)
 	if err == nil {
-		err = p.M.RotateRefreshToken(ctx, requestID, sig)
+		op := func() error { return p.M.RotateRefreshToken(ctx, requestID, sig) }
+		err = op()
+		if err == nil {
+			p.outsideTx(ctx, op)
+		}
 	}
 	p.post(c, err)
 	return err
@@ -273,7 +322,11 @@ func (p *ProxyStore) RotateRefreshToken(ctx context.Context, requestID string, s
 func (p *ProxyStore) RevokeRefreshToken(ctx context.Context, requestID string) error {
 	c, err := p.pre("RevokeRefreshToken", true, nil, requestID)
 	if err == nil {
-		err = p.M.RevokeRefreshToken(ctx, requestID)
+		op := func() error { return p.M.RevokeRefreshToken(ctx, requestID) }
+		err = op()
+		if err == nil {
+			p.outsideTx(ctx, op)
+		}
 	}
 	p.post(c, err)
 	return err
@@ -281,7 +334,11 @@ func (p *ProxyStore) RevokeRefreshToken(ctx context.Context, requestID string) e
 func (p *ProxyStore) RevokeAccessToken(ctx context.Context, requestID string) error {
 	c, err := p.pre("RevokeAccessToken", true, nil, requestID)
 	if err == nil {
-		err = p.M.RevokeAccessToken(ctx, requestID)
+		op := func() error { return p.M.RevokeAccessToken(ctx, requestID) }
+		err = op()
+		if err == nil {
+			p.outsideTx(ctx, op)
+		}
 	}
 	p.post(c, err)
 	return err
@@ -344,7 +401,11 @@ func (p *ProxyStore) IsJWTUsed(ctx context.Context, jti string) (bool, error) {
 func (p *ProxyStore) MarkJWTUsedForTime(ctx context.Context, jti string, exp time.Time) error {
 	c, err := p.pre("MarkJWTUsedForTime", true, nil, jti)
 	if err == nil {
-		err = p.M.MarkJWTUsedForTime(ctx, jti, exp)
+		op := func() error { return p.M.MarkJWTUsedForTime(ctx, jti, exp) }
+		err = op()
+		if err == nil {
+			p.outsideTx(ctx, op)
+		}
 	}
 	p.post(c, err)
 	return err
@@ -355,7 +416,11 @@ func (p *ProxyStore) MarkJWTUsedForTime(ctx context.Context, jti string, exp tim
 func (p *ProxyStore) CreatePARSession(ctx context.Context, requestURI string, request fosite.AuthorizeRequester) error {
 	c, err := p.pre("CreatePARSession", true, request, requestURI)
 	if err == nil {
-		err = p.M.CreatePARSession(ctx, requestURI, request)
+		op := func() error { return p.M.CreatePARSession(ctx, requestURI, request) }
+		err = op()
+		if err == nil {
+			p.outsideTx(ctx, op)
+		}
 	}
 	p.post(c, err)
 	return err
@@ -372,7 +437,11 @@ func (p *ProxyStore) GetPARSession(ctx context.Context, requestURI string) (fosi
 func (p *ProxyStore) DeletePARSession(ctx context.Context, requestURI string) error {
 	c, err := p.pre("DeletePARSession", true, nil, requestURI)
 	if err == nil {
-		err = p.M.DeletePARSession(ctx, requestURI)
+		op := func() error { return p.M.DeletePARSession(ctx, requestURI) }
+		err = op()
+		if err == nil {
+			p.outsideTx(ctx, op)
+		}
 	}
 	p.post(c, err)
 	return err
@@ -383,7 +452,11 @@ func (p *ProxyStore) DeletePARSession(ctx context.Context, requestURI string) er
 func (p *ProxyStore) CreateDeviceAuthSession(ctx context.Context, dSig, uSig string, req fosite.DeviceRequester) error {
 	c, err := p.pre("CreateDeviceAuthSession", true, req, dSig, uSig)
 	if err == nil {
-		err = p.M.CreateDeviceAuthSession(ctx, dSig, uSig, req)
+		op := func() error { return p.M.CreateDeviceAuthSession(ctx, dSig, uSig, req) }
+		err = op()
+		if err == nil {
+			p.outsideTx(ctx, op)
+		}
 	}
 	p.post(c, err)
 	return err
@@ -415,12 +488,31 @@ func (p *ProxyStore) InvalidateDeviceCodeSession(ctx context.Context, sig string
 	return err
 }
 
+// outsideTx: a write issued while a transaction is open but with a context that does not carry that
+// transaction is NOT part of it (a database would apply it on another connection): it must survive a rollback,
+// so it is applied to the rollback snapshot as well.
+func (p *ProxyStore) outsideTx(ctx context.Context, op func() error) {
+	if p.tx == nil || p.tx.snap == nil || p.tx.depth == 0 {
+		return
+	}
+	if ctx != nil && ctx.Value(txKey{}) != nil {
+		return
+	}
+	p.tx.OutsideWrites++
+	live := takeSnapshot(p)
+	p.tx.snap.restore(p)
+	_ = op()
+	p.tx.snap = takeSnapshot(p)
+	live.restore(p)
+}
+
 // TxStore adds storage.Transactional with real rollback on top of ProxyStore.
 type TxStore struct {
 	*ProxyStore
-	snap    *snapshot
-	TxTrace []string
-	depth   int
+	snap          *snapshot
+	TxTrace       []string
+	depth         int
+	OutsideWrites int // writes issued during an open transaction with a context that does not carry it
 }
 
 type txKey struct{}
